@@ -8,6 +8,9 @@ def repo_fix_commits():
     return []
 
 CHECKS = {
+ "C14": ("exploration", "Go race detector over a concurrent multi-instance workload with yield injection, plus cross-checking against sequential runs",
+   "A -race build of the workload runs independent writer/reader instances of all three formats in 2..32 goroutines through yielding sinks/sources, in separate processes for GOMAXPROCS 1,2,4,16; race reports are counted from the detector's log (halt_on_error=0, de-duplicated by library entry-point pair); every goroutine's output is compared with the same job run alone afterwards, and outputs are compared across goroutines, GOMAXPROCS settings and processes. The evidence lists instance runs, boundary calls, observed goroutine switches and distinct interleaving signatures.",
+   "Schedules are sampled by the Go scheduler; the race detector only sees accesses that happened; no golden digests.", "4 C14"),
  "C10": ("fault_enumeration", "ptrace syscall stepping of the unmodified gxz binary: crash-point and errno-fault enumeration with a directory-state oracle",
    "For each scenario a record pass lists every file-system syscall touching the scenario directory; the run is then repeated killing the process before and after each of them and failing each with every meaningful errno (once / persistently); after every run the directory and exit status are compared with invariants I1-I6 (data exists in one complete form, input never modified, failed runs leave input and target untouched, success means complete target, no temporary file, failures exit non-zero).",
    "Crash points = instants between observed syscalls; power-loss durability is out of scope; completeness of observation is self-checked on the record pass; scenario list is a sample in the quick tier and the full consistent product in the thorough tier.", "4 C10"),
@@ -95,6 +98,8 @@ def main():
             "add_only": True,
         },
         "engines": [
+            {"name": "vrace", "path": "/verif/cmd/vrace", "serves_properties": ["C14"], "kind_free_text": "concurrent workload built with -race; run by vcheck C14 as child processes"},
+            {"name": "sysstep", "path": "/verif/tools/sysstep.c", "serves_properties": ["C10", "C15"], "kind_free_text": "ptrace syscall stepper (C): record / kill-before / kill-after / fail-with-errno at the N-th file-system syscall of the traced gxz process"},
             {"name": "vcheck", "path": "/verif/cmd/vcheck", "serves_properties": sorted(CHECKS),
              "kind_free_text": "Go harness built per run against /repo's working tree (replace directive); boundary monitors, fault-injecting sinks/sources, independent reference decoder/encoder, evidence writer"},
         ],
